@@ -444,7 +444,9 @@ class DictArithmetic(dict):
 
         """
         if isinstance(other, dict):
-            for k, v in other.items():
+            # ``d -= d`` removes keys from the dict that is being iterated
+            items = tuple(other.items()) if other is self else other.items()
+            for k, v in items:
                 self[k] -= v
         else:
             self[()] -= other
